@@ -202,6 +202,7 @@ def run(ctx):
     hull_guards(ctx, "R17-e")
     lookup_key_is_canonical(ctx, "R17-f")
     source_text_indexed_relatively(ctx, "R17-g")
+    line_queries_share_one_matcher(ctx, "R17-h")
 
 
 def hull_guards(ctx, rid):
@@ -330,3 +331,39 @@ def source_text_indexed_relatively(ctx, rid):
                                 "map" % sorted({short(x.name) for x in absd}), [c.loc()])
     r.floor(rid, nunits, 4, "functions reading SourceFile::src / SnippetProvider::big_snippet")
     r.floor(rid, nsites, 1, "file-text index sites driven by span positions (SnippetProvider::span_to_snippet)")
+
+
+def line_queries_share_one_matcher(ctx, rid):
+    """R17-h: all questions put to a FileLines are answered by the same scan of the ranges"""
+    p, r = ctx.p, ctx.r
+    r.rule(rid, "sibling agreement in config::file_lines: `contains`, `intersects`, `contains_line` and `contains_range` — what the "
+                "rewriters, the missed-span copier and the line checks (diagnostics) ask — each hand a per-range predicate to "
+                "FileLines::file_range_matches, which answers `any` over *all* ranges stored for the canonicalised file name, and "
+                "none of them reads the range table itself.  A query with a search of its own (a binary search assuming disjoint, "
+                "sorted, non-empty ranges) disagrees with its siblings for the inputs the assumption misses — `[1,9]` + `[3,2]` — "
+                "and then the text is formatted while its diagnostics are withheld")
+    QUERIES = ("contains", "intersects", "contains_line", "contains_range")
+    n = 0
+    for nm in QUERIES:
+        f = None
+        for g in p.by_crate["rustfmt_nightly"]:
+            if g.id.endswith("config::file_lines::FileLines::" + nm) and g.kind != "Closure":
+                f = g
+        if f is None:
+            continue
+        n += 1
+        unit = [f] + [g for g in p.by_crate["rustfmt_nightly"] if g.id.startswith(f.id + "::{closure")]
+        delegates = any(c.name.endswith("FileLines::file_range_matches") for c in f.calls())
+        own = [c for g in unit for c in g.calls() if any(x in c.name for x in ("HashMap", "partition_point", "binary_search"))
+               and not c.name.endswith("file_range_matches")]
+        reads_table = any((adt or "").endswith("file_lines::FileLines") and str(fld) == "0" for g in unit
+                          for (adt, var, fld, mode, bb, line) in g.field_accesses())
+        ok = delegates and not own and not reads_table
+        r.instance(rid, "FileLines::%s" % nm, "ok" if ok else "violation", "%s:%d" % (f.file, f.line),
+                   "delegates to file_range_matches" if ok else "own look-up: %s" % sorted({short(c.name).rsplit("::", 1)[-1] for c in own})[:3])
+        if not ok:
+            r.violation(rid, "FileLines::%s does not answer through file_range_matches" % nm,
+                        "it %s: its answer can differ from that of the other queries for the same selection"
+                        % ("reads the range table itself" if (own or reads_table) else "never calls file_range_matches"),
+                        ["%s:%d" % (f.file, f.line)])
+    r.floor(rid, n, 3, "query methods of FileLines")
